@@ -14,8 +14,8 @@ PARTIAL = [
     "publication log is duplicate-free, a request only returns a published key, and every key is published after all keys its "
     "executor queried, so the concurrent run is a run of the sequential engine (C01) in publication order. The value-level half is "
     "checked on the implementation by the from-scratch oracle on every parallel run.",
-    "tiered_set_linearizable: proved for the REPAIRED insert_element (toggle fixed=true, fixes/F6-tiered-set-upgrade.diff). For the code "
-    "as it is the statement is refuted (asis_lost_insert_T1 / _T32, asis_insert_not_visible) and reproduced on the real set: finding F6.",
+    "tiered_set_linearizable: proved for insert_element as it is since /repo e992d9e (toggle fixed=true = the code now). HISTORICAL: for the code "
+    "before that fix the statement is refuted (asis_lost_insert_T1 / _T32, asis_insert_not_visible; finding F6, fixed).",
     "the computing-table model covers the cancellation the engine itself performs (the repair of an owner drops the remaining callee "
     "checks of an unordered group; a dropped owner removes its entry and notifies without publishing) but not cancellation of user "
     "requests or executor panics (C05), nor dependency cycles (C06: `check_cyclic` / SCC exit is not modelled; nested requests go to "
